@@ -6,7 +6,7 @@ from .common import *
 
 META = {
     'title': 'modes: chaining terms of ECB/CBC/CTR/CTS enc and dec, padding reset, counter layout (nonce half + big-endian counter half), pack/unpack agreement, name/kind definedness',
-    'expected_min': 207,
+    'expected_min': 211,
     'explanation': 'Every method of mode.py is normalised and compared with a restatement of SP 800-38A (CBC: IV first, x = b xor previous block; CBC '
                    'decryption right to left; CTR: E(counter) xor b with a truncating xor; CS3-style ciphertext stealing), including the padding reset at '
                    'the start of every enc(); DefaultCounter packs and unpacks the counter half with the same big-endian convention (unpack accumulation '
@@ -57,7 +57,8 @@ def run(ctx):
         ('CTS_CBC.__init__', S.CBC_INIT % 'nopadding'), ('CTS_CBC.enc', S.CTSCBC_ENC), ('CTS_CBC.dec', S.CTSCBC_DEC),
         ('DefaultCounter.__init__', S.COUNTER_INIT), ('DefaultCounter.setup', S.COUNTER_SETUP),
         ('DefaultCounter.reset', S.COUNTER_RESET), ('DefaultCounter.__call__', S.COUNTER_CALL),
-        ('CTR.__init__', S.CTR_INIT), ('CTR.enc', S.CTR_ENC), ('CTR.dec', S.CTR_DEC)])
+        ('CTR.__init__', S.CTR_INIT), ('CTR.enc', S.CTR_ENC), ('CTR.dec', S.CTR_DEC),
+        ('Mode.enc', S.MODE_ENC), ('Mode.dec', S.MODE_DEC), ('Chain.__call__', S.CHAIN_CALL), ('Chain.iterblocks', S.CHAIN_ITERBLOCKS)])
     for cls in ('ECB', 'CBC', 'CTR', 'CTS_ECB', 'CTS_CBC'):
         derives(ctx, MODE, cls, MODE, 'Mode')
         not_overridden(ctx, MODE, cls, ('iterblocks', 'xorstr', 'len'), 'Mode')
